@@ -14,7 +14,8 @@ Inductive op :=
 | OCleanup                (* c.Cleanup()                        *)
 | OReset                  (* c.Reset()                          *)
 | OAdvance (d : Z)        (* the clock moves by d nanoseconds   *)
-| OKeys.                  (* observation only: the keys currently stored (hook VerifKeys) *)
+| OKeys                   (* observation only: the keys currently stored (hook VerifKeys) *)
+| OStop.                  (* c.Stop(): ends the background cleaner; the cache stays usable *)
 
 (* What one operation was observed to return. *)
 Inductive res :=
